@@ -106,7 +106,7 @@ Proof.
     + intros c0 E. inversion E. unfold gnext. cbn. rewrite Nat.eqb_refl. split; reflexivity.
     + intros q Hq. unfold gnext. cbn. rewrite (proj2 (Nat.eqb_neq _ _) Hq). apply pair_eta.
   - (* Have *) conn_case s p G. destruct (i <? npieces s); [|discriminate]. inversion A. cbn. same_conn_flags H G g.
-  - (* Choke *) conn_case s p G. destruct (c_q c), (c_u c); inversion A; cbn; same_conn_flags H G g.
+  - (* Choke *) conn_case s p G. destruct (c_q c), (c_u c), (if choke_checks_stalled then c_s c else []); inversion A; cbn; same_conn_flags H G g.
   - (* Unchoke *) conn_case s p G. inversion A. cbn. same_conn_flags H G g.
   - (* Piece *) destruct (piece_begin s p i o l) as [s1|] eqn:B; [|discriminate].
     assert (E1 : forall q, gnext (Piece p i o l) g q = g q) by (intro; unfold gnext; cbn; apply pair_eta).
